@@ -269,6 +269,54 @@ core::RunResult run_stream(const Plan &plan, bool log) {
       for (size_t i = 0; i < a->seen.size(); i++)
         if (a->seen[i].marshalled != b->seen[i].marshalled) fail("oracle:C11:chunking-dependent", "message %zu differs between chunked and unsplit delivery", i);
     }
+    // ---- the writing side of C11: the same valid messages, sent by the library to a third peer through short
+    // writes, EAGAIN and EINTR; whatever the write boundaries, the peer must read exactly these bytes, in order
+    if (plan.prop == "C11" && plan.C("wr.on", 0) && !sp.valid.empty()) {
+      int p2 = w.peer_connect(cr);
+      w.iterate(2, 1, simk::IoProfile());
+      w.peer_write(p2, hs);
+      w.settle();
+      lw::ServerConn *wc = w.conn_of_peer(p2);
+      if (!wc || !wc->conn || !dbus_connection_get_is_authenticated(wc->conn)) fail("oracle:C08:not-accepted", "the third peer was not accepted");
+      std::string auth_reply = w.peer_read(p2);      // the handshake's replies: not part of the message stream
+      (void)auth_reply;
+      if (plan.C("wr.rxcap", 0) > 0) wc->peer->rxcap = (size_t)plan.C("wr.rxcap", 0);
+      std::string want, got;
+      simk::Rng wr((uint64_t)plan.C("wr.seed", 1));
+      size_t sent = 0;
+      for (auto &bytes : sp.valid) {
+        wire::ParseResult pr = wire::parse(bytes);
+        if (pr.status != wire::P_OK || pr.msg.has_field(wire::F_UNIX_FDS)) continue;
+        DBusError err;
+        dbus_error_init(&err);
+        DBusMessage *m = dbus_message_demarshal(bytes.data(), (int)bytes.size(), &err);
+        if (!m) { dbus_error_free(&err); continue; }
+        if (!dbus_connection_send(wc->conn, m, nullptr)) { dbus_message_unref(m); continue; }
+        dbus_message_unref(m);
+        want += bytes;
+        sent++;
+        if (wr.pct(60)) {
+          simk::IoProfile pr2;
+          pr2.short_write_pct = (unsigned)plan.C("wr.short", 0); pr2.eagain_write_pct = (unsigned)plan.C("wr.eagain", 0); pr2.eintr_pct = (unsigned)plan.C("wr.eintr", 0);
+          w.iterate(1 + (int)wr.below(2), wr.next(), pr2);
+          if (wr.pct(50)) got += w.peer_read(p2);
+        }
+      }
+      for (int round = 0; round < 2000 && got.size() < want.size(); round++) {
+        simk::IoProfile pr2;
+        pr2.short_write_pct = (unsigned)plan.C("wr.short", 0); pr2.eagain_write_pct = (unsigned)plan.C("wr.eagain", 0);
+        w.iterate(2, wr.next(), pr2);
+        got += w.peer_read(p2);
+      }
+      w.settle();
+      got += w.peer_read(p2);
+      counters["probe:writer_messages_sent"] += sent;
+      if (got != want) {
+        size_t d = 0;
+        while (d < got.size() && d < want.size() && got[d] == want[d]) d++;
+        fail("oracle:C11:written-stream-differs", "the library sent %zu messages (%zu bytes) through partial writes; the peer read %zu bytes, first difference at offset %zu", sent, want.size(), got.size(), d);
+      }
+    }
     counters["streams"]++;
     if (sp.invalid) counters["probe:stream_with_invalid_message"]++;
     if (sp.valid.size() >= 2) counters["probe:multi_message_stream"]++;
@@ -350,6 +398,15 @@ Plan gen_stream(const std::string &prop, uint64_t seed, bool th) {
   if (r.chance(40)) p.cfg["knob.read_limit"] = std::to_string(1 + r.below(64));
   if (r.chance(50)) p.cfg["hs_separate"] = "1";
   if (r.chance(20)) p.cfg["uid"] = "1000";
+  if (prop == "C11" && r.chance(45)) {
+    // the writing side too: the valid messages are sent back out to another peer through faulty writes
+    p.cfg["wr.on"] = "1";
+    p.cfg["wr.seed"] = std::to_string(r.next() & 0x7fffffff);
+    p.cfg["wr.short"] = std::to_string(r.chance(80) ? 10 + r.below(80) : 0);
+    p.cfg["wr.eagain"] = std::to_string(r.chance(50) ? r.below(40) : 0);
+    p.cfg["wr.eintr"] = std::to_string(r.chance(30) ? r.below(20) : 0);
+    if (r.chance(50)) p.cfg["wr.rxcap"] = std::to_string(8 + r.below(300));   // a peer with a tiny socket buffer: every write is short
+  }
   wiregen::MsgOpts mo;
   mo.nonzero_unix_fds = r.chance(15);
   mo.fd_type = r.chance(30);
